@@ -80,6 +80,37 @@ ENGINES.update({
     },
 })
 
+INV_SIMPLE = ["TypeOK", "RefinesA", "ReadsOK", "MergeLaws", "DupNoop", "StaleNoop", "ValidateOpOK", "ValidateMergeOK", "ValidateMergeSym", "ResetLaws", "PROPERTY Monotone"]
+
+
+def simplecfg(name, kind, extra=None):
+    return {"cfg": "simple_%s.cfg" % name, "module": "MC_Simple.tla",
+            "flags": (extra if extra is not None else ["--persist", "--laws"]) + ["--kind", kind], "invariants": INV_SIMPLE}
+
+
+ENGINES.update({
+    "clocks": {
+        "harness_engine": "clocks",
+        "serves": ["C10", "C02", "C16", "C18"],
+        "doc": "MC_Clocks.tla: every pair of clocks of a bounded universe as one TLC state; declarative laws checked on the spec, every case printed as a test vector evaluated on the real VClock/Dot",
+        "configs": {"quick": [{"cfg": "clocks_q.cfg", "module": "MC_Clocks.tla", "vectors": True,
+                               "invariants": ["OrderOK", "LatticeOK", "ForgetOK", "DotOK"]}],
+                    "thorough": [{"cfg": "clocks_t.cfg", "module": "MC_Clocks.tla", "vectors": True,
+                                  "invariants": ["OrderOK", "LatticeOK", "ForgetOK", "DotOK"]}]},
+        "traces": {"quick": [], "thorough": []},
+    },
+    "simple": {
+        "harness_engine": "simple",
+        "serves": ["C11", "C01", "C02", "C03", "C08", "C09", "C16", "C17", "C18", "C19"],
+        "configs": {"quick": [
+            simplecfg("gcounter", "gcounter"), simplecfg("gcounter3", "gcounter"), simplecfg("pncounter", "pncounter"),
+            simplecfg("lww", "lww"), simplecfg("lwwdup", "lww", ["--misuse"]),
+            simplecfg("max", "max"), simplecfg("min", "min"), simplecfg("gset", "gset"),
+        ], "thorough": []},
+        "traces": {"quick": [], "thorough": []},
+    },
+})
+
 PROPS = {
     "C01": {}, "C02": {"nontrivial": ["merge_in_path"]}, "C03": {"nontrivial": ["merge_in_path"]},
     "C04": {}, "C05": {}, "C06": {}, "C07": {},
